@@ -357,3 +357,155 @@ impl<'a> Reader<&'a [u8]> for SeamReader<'a> {
         self.pos = (self.pos + length).min(self.end);
     }
 }
+
+/// A conforming owning reader whose data continues with a huge virtual tail of zero octets that
+/// takes no memory: the first `real.len()` octets are real, `len()` reports `real.len() + tail`.
+/// Lets a message be decoded from the front of a buffer that is (claimed to be) longer than 4 GiB.
+pub struct VirtualTailReader {
+    real: Rc<Vec<u8>>,
+    pos: usize,
+    end: usize,
+}
+
+impl VirtualTailReader {
+    pub fn new(real: &[u8], tail: usize) -> Self {
+        VirtualTailReader { real: Rc::new(real.to_vec()), pos: 0, end: real.len() + tail }
+    }
+    pub fn remaining(&self) -> usize {
+        self.end - self.pos
+    }
+    fn at(&self, i: usize) -> u8 {
+        if i < self.real.len() {
+            self.real[i]
+        } else {
+            0
+        }
+    }
+    fn take<const N: usize>(&mut self) -> [u8; N] {
+        let mut out = [0u8; N];
+        for (k, o) in out.iter_mut().enumerate() {
+            if self.pos + k < self.end {
+                *o = self.at(self.pos + k);
+            }
+        }
+        self.pos = (self.pos + N).min(self.end);
+        out
+    }
+}
+
+impl Reader<Vec<u8>> for VirtualTailReader {
+    fn is_empty(&self) -> bool {
+        self.pos == self.end
+    }
+    fn len(&self) -> usize {
+        self.end - self.pos
+    }
+    fn subreader(&mut self, length: usize) -> Self {
+        let k = length.min(self.end - self.pos);
+        let s = VirtualTailReader { real: self.real.clone(), pos: self.pos, end: self.pos + k };
+        self.pos += k;
+        s
+    }
+    fn bytes(&mut self, length: usize) -> Option<Vec<u8>> {
+        if length > self.end - self.pos {
+            return None;
+        }
+        // refuse to materialise absurd requests (the caller only asks for declared lengths)
+        if length > (1 << 26) {
+            std::panic::panic_any(StepBudgetExceeded);
+        }
+        let v: Vec<u8> = (0..length).map(|i| self.at(self.pos + i)).collect();
+        self.pos += length;
+        Some(v)
+    }
+    unsafe fn read_u8_unchecked(&mut self) -> u8 {
+        self.take::<1>()[0]
+    }
+    unsafe fn read_u16_be_unchecked(&mut self) -> u16 {
+        u16::from_be_bytes(self.take::<2>())
+    }
+    unsafe fn read_u32_be_unchecked(&mut self) -> u32 {
+        u32::from_be_bytes(self.take::<4>())
+    }
+    unsafe fn read_u64_be_unchecked(&mut self) -> u64 {
+        u64::from_be_bytes(self.take::<8>())
+    }
+    fn skip_bytes(&mut self, length: usize) {
+        self.pos = (self.pos + length).min(self.end);
+    }
+}
+
+/// A conforming reader that, on its `trigger`-th call, decodes an unrelated valid control message
+/// through its own private reader before answering (an application whose reader pulls from a
+/// layered transport that itself speaks the protocol). Nothing in the trait forbids it; the outer
+/// decode must not notice.
+pub struct ReentrantReader<'a> {
+    inner: ContractReader<'a, Vec<u8>>,
+    calls: Rc<RefCell<u64>>,
+    trigger: u64,
+}
+
+impl<'a> ReentrantReader<'a> {
+    pub fn new(data: &'a [u8], log: Rc<RefCell<RLog>>, trigger: u64) -> Self {
+        ReentrantReader { inner: ContractReader::new(data, log), calls: Rc::new(RefCell::new(0)), trigger }
+    }
+    pub fn remaining(&self) -> usize {
+        self.inner.remaining()
+    }
+    fn tick(&self) {
+        let n = {
+            let mut c = self.calls.borrow_mut();
+            *c += 1;
+            *c
+        };
+        if n == self.trigger {
+            // Hello with one more valid AVP and one undecodable one: both acceptance and error
+            // collection are exercised by the nested call
+            const NESTED_OK: [u8; 28] = [0x13, 0x20, 0x00, 0x1c, 0, 1, 0, 0, 0, 0, 0, 0, 0x01, 0x08, 0, 0, 0, 0, 0, 6, 0x01, 0x08, 0, 0, 0, 9, 0x12, 0x34];
+            const NESTED_ERR: [u8; 28] = [0x13, 0x20, 0x00, 0x1c, 0, 1, 0, 0, 0, 0, 0, 0, 0x01, 0x08, 0, 0, 0, 0, 0, 6, 0x01, 0x08, 0, 0, 0, 0x63, 0x12, 0x34];
+            for m in [&NESTED_OK, &NESTED_ERR] {
+                let mut r = rl2tp::common::SliceReader::from(&m[..]);
+                let _ = rl2tp::Message::<&[u8]>::try_read(&mut r);
+            }
+        }
+    }
+}
+
+impl<'a> Reader<Vec<u8>> for ReentrantReader<'a> {
+    fn is_empty(&self) -> bool {
+        self.tick();
+        self.inner.is_empty()
+    }
+    fn len(&self) -> usize {
+        self.tick();
+        self.inner.len()
+    }
+    fn subreader(&mut self, length: usize) -> Self {
+        self.tick();
+        ReentrantReader { inner: self.inner.subreader(length), calls: self.calls.clone(), trigger: self.trigger }
+    }
+    fn bytes(&mut self, length: usize) -> Option<Vec<u8>> {
+        self.tick();
+        self.inner.bytes(length)
+    }
+    unsafe fn read_u8_unchecked(&mut self) -> u8 {
+        self.tick();
+        self.inner.read_u8_unchecked()
+    }
+    unsafe fn read_u16_be_unchecked(&mut self) -> u16 {
+        self.tick();
+        self.inner.read_u16_be_unchecked()
+    }
+    unsafe fn read_u32_be_unchecked(&mut self) -> u32 {
+        self.tick();
+        self.inner.read_u32_be_unchecked()
+    }
+    unsafe fn read_u64_be_unchecked(&mut self) -> u64 {
+        self.tick();
+        self.inner.read_u64_be_unchecked()
+    }
+    fn skip_bytes(&mut self, length: usize) {
+        self.tick();
+        self.inner.skip_bytes(length)
+    }
+}
